@@ -278,8 +278,13 @@ def execute(plan):
                 add("newest_point_not_retained", dict(w, note="the chain of retained points does not end at state.x"))
                 return "newest_dropped"
         elif at_switch and info.get("pairs_at_switch", 0) >= 1:
-            # all pairs dropped is legal only if x itself is the single retained point: nothing to check on sk
-            pass
+            # every pair was dropped: x itself must be the single retained point, i.e. no later state
+            # may hold a point visited before it
+            switch_state["oldest_allowed"] = end
+        if m and not at_switch and switch_state.get("oldest_allowed") is not None:
+            chain2, matched2 = find_chain(uni, sk, yk)
+            if matched2 == m and chain2[-1] < switch_state["oldest_allowed"]:
+                add("newest_point_not_retained", dict(w, note="a point older than the switch point survived a rewrite that dropped every pair"))
         return "ok"
 
     def on_state(act, rec, state):
@@ -384,7 +389,10 @@ def execute(plan):
         def add_report(clause, witness):
             add("report_after_rewrite." + clause, dict(witness, mode=sw["mode"]))
 
-        c04.judge(A, dict(c, jac="callable"), problem, 1, 0, add_report, "rewritten run")
+        c04.judge(
+            A, dict(c, jac="callable"), problem,
+            1 if ck0 is None else int(ck0.nfev), 0 if ck0 is None else int(ck0.nit), add_report, "rewritten run",
+        )
         stats["or.report_after_rewrite"] += 1
     filt = [t for t in A.filter_log]
     dropped = sum(a_ - b_ for a_, b_ in filt)
